@@ -37,8 +37,8 @@ def call(algo, inp, policy=None):
             o.outs = [res]
         else:
             o.outs = list(res)
-    except RecursionError:
-        raise
+    except (RecursionError, MemoryError):
+        raise  # resource exhaustion of the harness process is never an observation about the property
     except Exception as exc:  # noqa: BLE001 - an escaping exception is an observation
         import traceback
 
